@@ -154,6 +154,8 @@ if P:
     POSITIONS = BOUNDARIES if MODE == 'boundaries' else list(range(NB + 1))
     LO, HI = P.get('lo', 0), P.get('hi', len(POSITIONS))
     POSITIONS = POSITIONS[LO:HI]
+    if P.get('part') is not None:
+        POSITIONS = POSITIONS[P['part'][0]::P['part'][1]]       # strided partition: independent of the file size
     NPOS = len(POSITIONS)
 
 
@@ -201,6 +203,8 @@ def _build_and_check(rec, cfg, label):
 
 
 def _trunc_body(rec, ki):
+    if NPOS == 0:
+        return True
     k = POSITIONS[hs.sel(ki, NPOS)]
     with hs.untraced():
         MemFS.files.clear()
@@ -223,6 +227,8 @@ FLIPS = [('xor1', lambda b: b ^ 1), ('xor80', lambda b: b ^ 0x80), ('zero', lamb
 
 
 def _flip_body(rec, pi, kind):
+    if NPOS == 0:
+        return True
     pos = POSITIONS[hs.sel(pi, NPOS)]
     kind = hs.sel(kind, len(FLIPS))
     with hs.untraced():
@@ -277,20 +283,20 @@ def plan(tier, seed):
     if quick:
         for part in range(4):
             slices.append({'id': 'trunc:boundaries:%d/4' % part, 'func': 'trunc', 'mode': 'realised', 'twin': part == 0,
-                           'params': {'kind': 'trunc', 'positions': 'boundaries', 'lo': part * 500, 'hi': (part + 1) * 500 if part < 3 else 100000}, 'timeout': 400,
+                           'params': {'kind': 'trunc', 'positions': 'boundaries', 'part': [part, 4]}, 'timeout': 400,
                            'bound': {'offsets': 'header line ends and first/middle/last byte of every pickle opcode and argument'}})
         for part in range(10):
             slices.append({'id': 'flip:boundaries:%d/10' % part, 'func': 'flip', 'mode': 'realised',
-                           'params': {'kind': 'flip', 'positions': 'boundaries', 'lo': part * 200, 'hi': (part + 1) * 200 if part < 9 else 100000},
+                           'params': {'kind': 'flip', 'positions': 'boundaries', 'part': [part, 10]},
                            'timeout': 400, 'twin': part == 0, 'bound': {'positions': 'opcode boundaries +-1', 'kinds': [f[0] for f in FLIPS]}})
     else:
         for part in range(16):
             slices.append({'id': 'trunc:all:%d/16' % part, 'func': 'trunc', 'mode': 'realised',
-                           'params': {'kind': 'trunc', 'positions': 'all', 'lo': part * 400, 'hi': (part + 1) * 400 if part < 15 else 10 ** 6}, 'timeout': 2400,
+                           'params': {'kind': 'trunc', 'positions': 'all', 'part': [part, 16]}, 'timeout': 2400,
                            'twin': part == 0, 'bound': {'offsets': 'every byte offset'}})
         for part in range(32):
             slices.append({'id': 'flip:all:%d/32' % part, 'func': 'flip', 'mode': 'realised',
-                           'params': {'kind': 'flip', 'positions': 'all', 'lo': part * 200, 'hi': (part + 1) * 200 if part < 31 else 10 ** 6}, 'timeout': 3000,
+                           'params': {'kind': 'flip', 'positions': 'all', 'part': [part, 32]}, 'timeout': 3000,
                            'twin': part == 0, 'bound': {'positions': 'every byte', 'kinds': [f[0] for f in FLIPS]}})
     slices.append({'id': 'hist:len<=3', 'func': 'hist', 'mode': 'realised', 'params': {'kind': 'hist'}, 'timeout': 600,
                    'bound': {'builds': 3, 'configurations': 9}})
